@@ -56,16 +56,34 @@ func jsonTag(f *types.Var, tag string) (string, bool) {
 // jsonFacts relates the leaves of a value of type t (loaded from / stored to memory) to readings of a JSON text.
 // decode=true: v == reading(text) (Unmarshal). decode=false: reading(text) == v (Marshal).
 func (fx *FX) jsonFacts(st *State, text T, path string, t types.Type, v Val, guard T) {
+	fx.jsonFactsOld(st, text, path, t, v, nil, guard)
+}
+
+// jsonFactsOld: with old != nil (decoding), a member that is absent from the text leaves the field as it was.
+func (fx *FX) jsonFactsOld(st *State, text T, path string, t types.Type, v Val, old Val, guard T) {
 	switch u := t.Underlying().(type) {
 	case *types.Basic:
 		key := fx.strLit(path)
+		has := app(SBool, "jhas", text, key)
 		switch {
 		case u.Info()&types.IsString != 0:
-			fx.assume(guard, eq(v.(VStr).T, app(SSeq, "jstr", text, key)))
+			r := app(SSeq, "jstr", text, key)
+			if old != nil {
+				r = ite(has, r, old.(VStr).T)
+			}
+			fx.assume(guard, eq(v.(VStr).T, r))
 		case u.Info()&types.IsBoolean != 0:
-			fx.assume(guard, app(SBool, "=", v.(VBool).T, app(SBool, "jbool", text, key)))
+			r := app(SBool, "jbool", text, key)
+			if old != nil {
+				r = ite(has, r, old.(VBool).T)
+			}
+			fx.assume(guard, app(SBool, "=", v.(VBool).T, r))
 		case u.Info()&types.IsInteger != 0:
-			fx.assume(guard, eq(v.(VInt).T, app(SInt, "jnum", text, key)))
+			r := app(SInt, "jnum", text, key)
+			if old != nil {
+				r = ite(has, r, old.(VInt).T)
+			}
+			fx.assume(guard, eq(v.(VInt).T, r))
 		}
 	case *types.Struct:
 		sv := v.(VStruct)
@@ -79,13 +97,24 @@ func (fx *FX) jsonFacts(st *State, text T, path string, t types.Type, v Val, gua
 			if path != "" {
 				p = path + "." + name
 			}
-			fx.jsonFacts(st, text, p, f.Type(), sv.F[i], guard)
+			var of Val
+			if old != nil {
+				of = old.(VStruct).F[i]
+			}
+			fx.jsonFactsOld(st, text, p, f.Type(), sv.F[i], of, guard)
 		}
 	case *types.Pointer:
 		pv := v.(VPtr)
 		key := fx.strLit(path)
 		has := app(SBool, "jhas", text, key)
-		fx.assume(guard, app(SBool, "=", not(eq(pv.Ref, num(0))), has))
+		if old != nil {
+			op := old.(VPtr)
+			// an absent member leaves the pointer as it was; a present one makes it non-nil
+			fx.assume(and(guard, not(has)), and(eq(pv.Ref, op.Ref), eq(pv.Off, op.Off)))
+			fx.assume(and(guard, has), not(eq(pv.Ref, num(0))))
+		} else {
+			fx.assume(guard, app(SBool, "=", not(eq(pv.Ref, num(0))), has))
+		}
 		if _, isStruct := u.Elem().Underlying().(*types.Struct); isStruct {
 			inner, _ := unflatten(u.Elem(), fx.loadLeaves(st, pv.Ref, pv.Off, u.Elem()))
 			fx.jsonFacts(st, text, path, u.Elem(), inner, and(guard, has))
@@ -168,7 +197,7 @@ func registerRESTModels(u *Unit) {
 		func(fx *FX, st *State, c *CallCtx) Val {
 			return VStr{app(SSeq, "statustext", c.Args[0].(VInt).T)}
 		})
-	u.reg("encoding/json.Unmarshal", "err == nil iff jok(data, T) for the target type T; on success every exported field of the target equals the JSON reading at its tag path (absent members read as the zero value); on failure the target is unconstrained", []int{1},
+	u.reg("encoding/json.Unmarshal", "err == nil iff jok(data, T) for the target type T; on success every exported field whose member is present (jhas) equals the JSON reading at its tag path and every other field keeps its previous value; on failure the target is unconstrained", []int{1},
 		func(fx *FX, st *State, c *CallCtx) Val {
 			data := c.Args[0].(VSlice)
 			iv := c.Args[1].(VIface)
@@ -187,13 +216,16 @@ func registerRESTModels(u *Unit) {
 			fx.writeCheck(st, tp.Ref, rootOf(mi.X), c.Pos, "json.Unmarshal target")
 			text := fx.def("jsontext", seqOfBytes(fx, st, data))
 			okv := fx.def("jok", app(SBool, "jok", text, num(fx.u.typeTag(pt.Elem()))))
-			// havoc the target, then constrain it on success
+			// havoc the target, then constrain it on success: present members are decoded, absent ones keep
+			// the value the field had before the call
+			oldv, _ := unflatten(pt.Elem(), fx.loadLeaves(st, tp.Ref, tp.Off, pt.Elem()))
+			oldv = fx.defVal("unmarshal_old", pt.Elem(), oldv)
 			nv := fx.havoc("unmarshalled", pt.Elem(), tTrue)
 			fx.storeLeaves(st, tp.Ref, tp.Off, pt.Elem(), flatten(nv))
 			if a := fx.privRoot(mi.X); a != nil {
 				st.Priv[a] = [2]T{st.H, st.Hs}
 			}
-			fx.jsonFacts(st, text, "", pt.Elem(), nv, okv)
+			fx.jsonFactsOld(st, text, "", pt.Elem(), nv, oldv, okv)
 			// nested pointers point to fresh objects
 			fx.unmarshalAllocs(st, pt.Elem(), nv)
 			return fx.condError(st, okv, "json")
